@@ -34,6 +34,7 @@ def run_login(tid, stages, final, sync, reset, extra=None, h=None):
         opts.update(extra)
     hop, custom = opts.pop('_hop', False), opts.pop('_custom', False)
     echo = opts.pop('_echo', False)
+    opts.pop('_expiry', None)
     nlog0 = 0
     if hop:
         # two-hop login on one object: the outer host first, then `ssh inner` typed at its shell
@@ -181,6 +182,12 @@ def run(ctx):
     # the remote terminal echoes what is typed at the shell (as a real one does)
     for c in rng.sample(configs, 500 if ctx.quick() else 3000):
         traces.append(run_login(len(traces), *c, extra={'_echo': True}))
+        nhop += 1
+    # a message of the day that mentions "password" without asking for it (and has a colon further on), default patterns:
+    # nothing is typed in answer to it
+    for stages, final, sync, reset in rng.sample(configs, 400 if ctx.quick() else 3000):
+        at = rng.randint(0, len(stages))
+        traces.append(run_login(len(traces), tuple(stages[:at]) + ('expiry',) + tuple(stages[at:]), final, sync, reset, extra={'_expiry': True}))
         nhop += 1
     # a jump host with the default patterns (no message of the day: the default password_regex is documented to need help there)
     plain2 = [c for c in cfg2 if 'notice' not in c[0]]
